@@ -74,7 +74,7 @@ Init == /\ asz = [f \in Files |-> 0] /\ msize = [f \in Files |-> 0] /\ mok = [f 
         /\ rf = [r \in Readers |-> <<0, 0>>] /\ buf = [r \in Readers |-> {}] /\ waiton = [r \in Readers |-> NoL]
         /\ wpc = [r \in Readers |-> None] /\ winl = [r \in Readers |-> FALSE]
         /\ wf = [r \in Readers |-> NoW] /\ wb = [r \in Readers |-> {}]
-        /\ epc = [a \in EvActors |-> None] /\ evict = [a \in EvActors |-> 0] /\ sweep = [a \in EvActors |-> FALSE]
+        /\ epc = [a \in EvActors |-> None] /\ evict = [a \in EvActors |-> 0] /\ sweep = [a \in EvActors |-> 0]
         /\ evleft = MaxEv /\ faultsleft = Faults /\ reopenleft = ReopenMax /\ beyond = FALSE
 
 Goto(r, s) == pc' = [pc EXCEPT ![r] = s]
@@ -284,7 +284,7 @@ WFin(r) == /\ wpc[r] = "w_fin"
 \* forceRecycle -> timerHandler: only one sweep at a time
 WRecycle(r) == /\ wpc[r] = "w_recycle"
                /\ IF running THEN WGoto(r, "w_end") /\ UNCHANGED <<running, epc, sweep>>
-                  ELSE /\ running' = TRUE /\ epc' = [epc EXCEPT ![WA(r)] = "e_pick"] /\ sweep' = [sweep EXCEPT ![WA(r)] = TRUE]
+                  ELSE /\ running' = TRUE /\ epc' = [epc EXCEPT ![WA(r)] = "e_pick"] /\ sweep' = [sweep EXCEPT ![WA(r)] = NF]
                        /\ WGoto(r, "w_sweeping")
                /\ UNCHANGED <<asz, media, locks, lru, isFull, refilling, rstate, winl, wf, wb, evict, budget, beyond>>
 WSweepDone(r) == /\ wpc[r] = "w_sweeping" /\ epc[WA(r)] = None /\ WGoto(r, "w_end")
@@ -298,18 +298,21 @@ WEnd(r) == /\ wpc[r] = "w_end" /\ refilling' = refilling - 1
 \* ================================================================================================ eviction
 \* external: FileCachePool::evict(name) (no running_ guard) or the timer (a sweep)
 EvStart == /\ evleft > 0 /\ epc[EV] = None /\ evleft' = evleft - 1
-           /\ \/ \E f \in Files : /\ evict' = [evict EXCEPT ![EV] = f] /\ sweep' = [sweep EXCEPT ![EV] = FALSE]
+           /\ \/ \E f \in Files : /\ evict' = [evict EXCEPT ![EV] = f] /\ sweep' = [sweep EXCEPT ![EV] = -1]
                                   /\ epc' = [epc EXCEPT ![EV] = "e_wq"] /\ UNCHANGED running
-              \/ /\ ~running /\ running' = TRUE /\ sweep' = [sweep EXCEPT ![EV] = TRUE]
+              \/ /\ ~running /\ running' = TRUE /\ sweep' = [sweep EXCEPT ![EV] = NF]
                  /\ epc' = [epc EXCEPT ![EV] = "e_pick"] /\ UNCHANGED evict
            /\ UNCHANGED <<asz, media, locks, lru, isFull, refilling, rstate, wstate, faultsleft, reopenleft, beyond>>
-\* cache_pool.cpp:383-418 : next victim = LRU tail (an open file is moved to the front), or the sweep ends (isFull_ = false)
+\* cache_pool.cpp:383-418 : next victim = LRU tail (an open file is moved to the front), or the sweep ends (isFull_ = false).
+\* sweep[a] = victims the sweep may still take (a sweep visits every file at most once: a file it has emptied has size 0)
 EPick(a) == /\ epc[a] = "e_pick"
-            /\ \/ /\ evict' = [evict EXCEPT ![a] = lru[Len(lru)]]
+            /\ \/ /\ sweep[a] > 0 /\ sweep' = [sweep EXCEPT ![a] = @ - 1]
+                  /\ evict' = [evict EXCEPT ![a] = lru[Len(lru)]]
                   /\ lru' = <<lru[Len(lru)]>> \o SubSeq(lru, 1, Len(lru) - 1)
                   /\ isFull' = TRUE /\ epc' = [epc EXCEPT ![a] = "e_wq"] /\ UNCHANGED running
-               \/ /\ running' = FALSE /\ isFull' = FALSE /\ epc' = [epc EXCEPT ![a] = None] /\ UNCHANGED <<evict, lru>>
-            /\ UNCHANGED <<asz, media, locks, refilling, rstate, wstate, sweep, budget, beyond>>
+               \/ /\ running' = FALSE /\ isFull' = FALSE /\ epc' = [epc EXCEPT ![a] = None] /\ sweep' = [sweep EXCEPT ![a] = 0]
+                  /\ UNCHANGED <<evict, lru>>
+            /\ UNCHANGED <<asz, media, locks, refilling, rstate, wstate, budget, beyond>>
 \* evictOpenedFile: scoped_rwlock(WLOCK)
 EWq(a) == /\ epc[a] = "e_wq"
           /\ LET f == evict[a] IN
@@ -332,8 +335,9 @@ ETrunc(a) == /\ epc[a] = "e_trunc"
 \* finalizeEvicted (under m_lock_): truncate_done = false
 EFinal(a) == /\ epc[a] = "e_final"
              /\ tdone' = [tdone EXCEPT ![evict[a]] = FALSE]
-             /\ epc' = [epc EXCEPT ![a] = IF sweep[a] THEN "e_pick" ELSE None]
-             /\ UNCHANGED <<asz, msize, mok, mbad, alloc, fmap, locks, pool, rstate, wstate, evict, sweep, budget, beyond>>
+             /\ epc' = [epc EXCEPT ![a] = IF sweep[a] >= 0 THEN "e_pick" ELSE None]
+             /\ sweep' = [sweep EXCEPT ![a] = IF @ < 0 THEN 0 ELSE @]
+             /\ UNCHANGED <<asz, msize, mok, mbad, alloc, fmap, locks, pool, rstate, wstate, evict, budget, beyond>>
 
 \* ================================================================================================ reopen
 AtRest == /\ \A r \in Readers : pc[r] = "idle" /\ wpc[r] = None
